@@ -11,7 +11,9 @@ import (
 	"strings"
 	"time"
 
+	"github.com/ClickHouse/ch-go/compress"
 	"github.com/ClickHouse/ch-go/proto"
+	"github.com/go-faster/city"
 
 	"verif/internal/core"
 	"verif/internal/ref"
@@ -22,7 +24,7 @@ func init() {
 	Registry["C06"] = Spec{
 		Fn:           c06,
 		Level:        "exploration",
-		Rule:         "inputs = structure-aware mutations of valid library encodings (blocks of every catalogue column and random compositions; every protocol message): every bit flipped and every byte replaced by {00,01,7f,80,ff} at every offset of small encodings; a uvarint and a 64-bit field overwritten at every offset with {0,1,cap-1,cap,cap+1,2^31,2^32,2^63-1,2^64-1} and smaller/non-monotonic neighbours; splices, truncation+garbage, duplication; the column type name in the block header replaced by ~130 malformed names (parentheses reversed / unbalanced / emptied, parameters cut or replaced by garbage, bad Enum / DateTime64 / Decimal / FixedString parameters, nesting 50 and 2000 deep); decoded through typed, boxed and inferred targets and every message decoder. Two regimes: 'flood' (hook caps lowered to 2^16 rows / 2^20 string bytes; arbitrary mutations; allocation delta <= 64 MiB + 16*len) and 'cap' (hook inert; only fields set just beyond and far beyond the library's caps at known field positions; must be rejected with an allocation delta <= 4 MiB). Oracle: no panic (also in Error()/%+v of the returned error), no worker abort, no reads continuing after EOF, and on success every column reports the block's rows and every Row(i)/RowKV(i) below it works. Non-trivial = the decoder consumed at least the block header; distinct = (target, mutation kind, offset class, outcome class)",
+		Rule:         "inputs = structure-aware mutations of valid library encodings (blocks of every catalogue column and random compositions; every protocol message): every bit flipped and every byte replaced by {00,01,7f,80,ff} at every offset of small encodings; a uvarint and a 64-bit field overwritten at every offset with {0,1,cap-1,cap,cap+1,2^31,2^32,2^63-1,2^64-1} and smaller/non-monotonic neighbours; splices, truncation+garbage, duplication; the column type name in the block header replaced by ~130 malformed names (parentheses reversed / unbalanced / emptied, parameters cut or replaced by garbage, bad Enum / DateTime64 / Decimal / FixedString parameters, nesting 50 and 2000 deep); the same blocks inside NONE / LZ4 / ZSTD frames whose header fields are forged (every small value and the 2^k boundaries of both size fields, with the original and with a recomputed checksum) or bit-flipped; decoded through typed, boxed and inferred targets and every message decoder. Two regimes: 'flood' (hook caps lowered to 2^16 rows / 2^20 string bytes; arbitrary mutations; allocation delta <= 64 MiB + 16*len) and 'cap' (hook inert; only fields set just beyond and far beyond the library's caps at known field positions; must be rejected with an allocation delta <= 4 MiB). Oracle: no panic (also in Error()/%+v of the returned error), no worker abort, no reads continuing after EOF, and on success every column reports the block's rows and every Row(i)/RowKV(i) below it works. Non-trivial = the decoder consumed at least the block header; distinct = (target, mutation kind, offset class, outcome class)",
 		Assumptions:  []string{"allocation measured with runtime/metrics /gc/heap/allocs:bytes (shard workers are single-threaded)", "by-design allocations within the library's own caps (e.g. 100M rows x element size) are avoided in the flood regime by the tag-guarded extra caps"},
 		MinDistinct:  1000,
 		TimeoutQuick: 15 * time.Minute,
@@ -55,6 +57,12 @@ func panicSite(stack string) string {
 				s = s[:i] + s[i+5:]
 			}
 			s = strings.TrimSuffix(s, "(...)")
+			// drop the argument list (addresses differ from run to run): "(*Reader).readBlock(0xc0..)"
+			if strings.HasSuffix(s, ")") {
+				if i := strings.LastIndexByte(s, '('); i > 0 && (i+1 >= len(s) || s[i+1] != '*') {
+					s = s[:i]
+				}
+			}
 			if i := strings.IndexByte(s, '('); i > 0 && !strings.Contains(s[:i], ".") {
 				continue
 			}
@@ -169,6 +177,42 @@ func c06Decode(r *core.Run, regime, kind string, bc *blockCase, data []byte, dec
 		}); p != "" {
 			r.Violation("panic:consistency-walk", p, cs())
 		}
+	}
+	return "ok"
+}
+
+// c06DecodeCompressed decodes data as a compressed stream holding the block.
+func c06DecodeCompressed(r *core.Run, kind string, bc *blockCase, data []byte, allocLimit uint64) string {
+	fr := &fusedReader{r: bytes.NewReader(data)}
+	rd := proto.NewReader(fr)
+	rd.EnableCompression()
+	_, res, err := bc.targets()
+	if err != nil {
+		return "skip"
+	}
+	cs := map[string]any{"regime": "flood", "mutation": kind, "case": bc.Desc(), "decoder": "typed/compressed", "input": clipN(data, 4096)}
+	r.Eval()
+	var blk proto.Block
+	var derr error
+	before := allocBytes()
+	p := core.Recover(func() { derr = blk.DecodeBlock(rd, bc.Rev, res) })
+	delta := allocBytes() - before
+	if p != "" {
+		r.Violation("panic:compressed:"+panicSite(p), fmt.Sprintf("flood/%s decoding %s inside a compressed frame: %s", kind, bc.TS, p), cs)
+		return "panic"
+	}
+	if fr.afterEOF > 64 {
+		r.Violation("reads-after-EOF", fmt.Sprintf("flood/%s: the decoder called Read %d times after EOF", kind, fr.afterEOF), cs)
+	}
+	// a size field within the library's 128 MiB frame limit may legitimately be allocated
+	if delta > allocLimit+2*(128<<20) {
+		r.Violation("allocation:flood:compressed-frame", fmt.Sprintf("flood/%s decoding %s: %d bytes allocated, err=%v", kind, bc.TS, delta, derr), cs)
+	}
+	if derr != nil {
+		if p := core.Recover(func() { _ = derr.Error(); _ = fmt.Sprintf("%+v", derr) }); p != "" {
+			r.Violation("panic:error-rendering", p, cs)
+		}
+		return "error"
 	}
 	return "ok"
 }
@@ -369,6 +413,47 @@ func c06(r *core.Run) {
 					outcomes[out]++
 					r.NonTrivial("type-name", typeSite(bc.T), strings.SplitN(bc.Kind, ":", 2)[0], dec, out, c06NameClass(name))
 					r.Count("hostile_type_names", 1)
+				}
+			}
+		}
+		// the same block inside a compressed frame: hostile values in the frame header (method byte
+		// and both size fields, every small value and the 2^k boundaries), with and without a
+		// recomputed checksum, and every mutant of the frame's first 40 bytes; decoded through the
+		// compressed reader in front of DecodeBlock
+		if k%3 == 0 {
+			m := []c05Method{{compress.None, 0, "NONE"}, {compress.LZ4, 0, "LZ4"}, {compress.ZSTD, 0, "ZSTD"}}[(k/3)%3]
+			cw := compress.NewWriter(m.Level, m.M)
+			if cw.Compress(bc.Bytes) == nil && len(cw.Data) >= 25 {
+				frame := append([]byte(nil), cw.Data...)
+				try := func(kind string, data []byte) {
+					r.CaseLog(fmt.Sprintf("%d flood compressed %s %s %x", ci, m.Name, kind, clipN(data, 200)))
+					out := c06DecodeCompressed(r, kind, bc, data, limit)
+					outcomes[out]++
+					r.NonTrivial("compressed", m.Name, strings.SplitN(kind, "=", 2)[0], out)
+				}
+				for _, off := range []int{17, 21} {
+					for _, v := range c05HeaderVals() {
+						f := append([]byte(nil), frame...)
+						binary.LittleEndian.PutUint32(f[off:], v)
+						try(fmt.Sprintf("frame-u32@%d=%d", off, v), f)
+						// with a checksum that matches the forged header (the check order of the reader
+						// must not matter)
+						end := len(f)
+						if off == 17 && v >= 9 && 16+int(v) <= len(f) {
+							end = 16 + int(v) // the checksum covers header + declared payload
+						}
+						h := city.CH128(f[16:end])
+						binary.LittleEndian.PutUint64(f[0:], h.Low)
+						binary.LittleEndian.PutUint64(f[8:], h.High)
+						try(fmt.Sprintf("frame-u32+hash@%d=%d", off, v), f)
+					}
+				}
+				for off := 0; off < 40 && off < len(frame); off++ {
+					for _, mask := range []byte{0x01, 0x80, 0xff} {
+						f := append([]byte(nil), frame...)
+						f[off] ^= mask
+						try(fmt.Sprintf("frame-flip@%d", off), f)
+					}
 				}
 			}
 		}
